@@ -62,6 +62,7 @@ BASE = dict(
   flags_disable=("refsafe",),
   p_adhesion=0.15,
   p_surfacevel=0.3,  # geom surface velocity enters the reference velocity of contact rows (extras stream)
+  p_soledge=0.35,  # solver parameters at their edges (zero width, dmin == dmax, mid 0/1, power 0.5..6, direct solref)
 )
 PROFILE_U = gen.profile(geoms=("sphere", "capsule", "ellipsoid"), **BASE)
 PROFILE_X = gen.profile(geoms=("sphere", "capsule", "ellipsoid", "box", "cylinder"), **BASE)
